@@ -130,20 +130,7 @@ def run(ctx):
         rep.info("emulate functions without a table row: %s" % extra[:5])
 
     # ---- D3 -------------------------------------------------------------------
-    ee = db.func("orc_executor_emulate", "orcexecutor")
-    rep.saw(ee)
-    calls = [c for c in ee.calls() if c.name is None and "emulateN" in unparse(c.c[0])]
-    if not calls:
-        raise AnalysisBroken("orc_executor_emulate: emulateN call not found")
-    zero = {}
-    for n in ee.walk():
-        if n.k == "BinaryOperator" and n.op == "=" and strip_casts(n.c[0]).k == "ArraySubscriptExpr" and \
-                (access_path(strip_casts(n.c[0]).c[0]) or "").endswith("->accumulators") and strip_casts(n.c[1]).v == 0:
-            zero[strip_casts(n.c[0]).c[1].v] = n
-    nacc = db.field("OrcExecutor", "accumulators")["alen"]
-    ok = all(k in zero and all(ee.dominates(zero[k], c) for c in calls) for k in range(nacc))
-    rep.check(ok, "D3-ACC-ZERO", where(ee), "accumulators", "all %d accumulators are zeroed before any emulateN call" % nacc,
-              "accumulator(s) %s are not reset before emulation starts: sums do not start from zero" % [k for k in range(nacc) if k not in zero])
+    ee, calls = acc_zero(db, rep, "D3-ACC-ZERO")
     for c in calls:
         a = c.args()
         t = unparse(a[2])
@@ -224,6 +211,26 @@ def run(ctx):
                       (e.op, pseudo, desc, want[0], want[1], e.op, "; ".join(probs[:3])))
     if nsat < 25:
         raise AnalysisBroken("only %d saturating opcodes recognised in the reference table" % nsat)
+
+
+def acc_zero(db, rep, rule):
+    """every accumulator slot of the executor is zeroed before the first emulateN call, on every path (also for code-only
+    executors, whose structure lives uncleared on a wrapper's stack)."""
+    ee = db.func("orc_executor_emulate", "orcexecutor")
+    rep.saw(ee)
+    calls = [c for c in ee.calls() if c.name is None and "emulateN" in unparse(c.c[0])]
+    if not calls:
+        raise AnalysisBroken("orc_executor_emulate: emulateN call not found")
+    zero = {}
+    for n in ee.walk():
+        if n.k == "BinaryOperator" and n.op == "=" and strip_casts(n.c[0]).k == "ArraySubscriptExpr" and \
+                (access_path(strip_casts(n.c[0]).c[0]) or "").endswith("->accumulators") and strip_casts(n.c[1]).v == 0:
+            zero[strip_casts(n.c[0]).c[1].v] = n
+    nacc = db.field("OrcExecutor", "accumulators")["alen"]
+    ok = all(k in zero and all(ee.dominates(zero[k], c) for c in calls) for k in range(nacc))
+    rep.check(ok, rule, where(ee), "accumulators", "all %d accumulators are zeroed before any emulateN call" % nacc,
+              "accumulator(s) %s are not reset before emulation starts: sums do not start from zero" % [k for k in range(nacc) if k not in zero])
+    return ee, calls
 
 
 def emus_dispatch_source(ee):
